@@ -8,8 +8,9 @@ WT="$1"; cd "$WT" || exit 3
 export RUST_BACKTRACE=0 CARGO_NET_OFFLINE=true
 [ -f seeded/patch.diff ] || { echo "no patch.diff"; exit 3; }
 # start from a clean tree
-git stash -q --include-untracked 2>/dev/null; git checkout -q -- . ; git stash pop -q 2>/dev/null
+# (no git stash: the stash is shared between all worktrees of a repository)
 git checkout -q -- . 2>/dev/null
+git clean -fdq -e seeded -e TASK.md -e target 2>/dev/null
 git status --porcelain | grep -v '^??' | head -3
 git apply --check seeded/patch.diff || { echo "PATCH DOES NOT APPLY"; exit 1; }
 echo "== without change: demo"
